@@ -1,7 +1,7 @@
 /-
 Helper lemmas for C11 (Merkle proof checks): the object view `PCell` of a tree versus `Cell.info`,
 the Merkle-proof cell built over a pruned tree, completeness of `check_proof` / `check_block_header_proof`,
-and the binding (soundness) argument at level 0.
+and list/byte helpers of the binding (soundness) argument (Proofs/Binding.lean).
 -/
 import TonVerif.Model.Proof
 import TonVerif.Proofs.CellSpec
@@ -141,7 +141,7 @@ theorem construct_pruned_hash (H : Bytes → Bytes) (bits : Bits) (wf : NodeWF H
   simp [CellInfo.hash, dataBytes_eq]
 
 
-/-! ### binding at level 0 (trees without Merkle cells) -/
+/-! ### helpers of the binding argument (Proofs/Binding.lean) -/
 
 theorem length_bitsToBytes : ∀ (n : Nat) (xs : Bits), xs.length = n → (bitsToBytes xs).length = (n + 7) / 8 := by
   intro n
@@ -167,73 +167,6 @@ theorem length_dataBytes (bits : Bits) : (Spec.dataBytes bits).length = (bits.le
     simp only [List.length_append, List.length_singleton, List.length_replicate]
     omega
 
-/-- level-0 representation of a non-pruned cell -/
-def repr0 (k : Spec.Kind) (bits : Bits) (ss : List Spec.SInfo) : Bytes :=
-  [Spec.d1 ss.length k.isExotic 0, Spec.d2 bits.length] ++ Spec.dataBytes bits ++ Spec.childPart ss (0 + k.mu)
-
-mutual
-  /-- trees without Merkle proof/update cells: ordinary, library and (leaf) pruned-branch cells with at least one
-  stored hash+depth -/
-  def MFree : Cell → Prop
-    | .mk kind bits refs => (kind = -1 ∨ kind = 1 ∨ kind = 2) ∧ refs.length ≤ 4 ∧
-        (kind = 1 → refs = [] ∧ 272 ≤ bits.length ∧ 1 ≤ natOfBits ((bits.drop 8).take 8)) ∧ MFrees refs
-  def MFrees : List Cell → Prop
-    | [] => True
-    | c :: cs => MFree c ∧ MFrees cs
-end
-
-mutual
-  /-- the level-0 representations of all non-pruned cells of a tree -/
-  def reprs0 (H : Bytes → Bytes) : Cell → List Bytes
-    | .mk kind bits refs =>
-      (match kindOf kind, specInfos H refs with
-        | some k, some ss => if k = .pruned then [] else [repr0 k bits ss]
-        | _, _ => []) ++ reprs0s H refs
-  def reprs0s (H : Bytes → Bytes) : List Cell → List Bytes
-    | [] => []
-    | c :: cs => reprs0 H c ++ reprs0s H cs
-end
-
-mutual
-  /-- `Agree0 H p t`: `p` and `t` have the same level-0 hash, and either one of them is a pruned branch (which then
-  carries exactly that hash) or they are the same cell: same type, same data bytes (incl. completion tag) and
-  bit-length descriptor, same number of references, children pairwise `Agree0`. -/
-  def Agree0 (H : Bytes → Bytes) : Cell → Cell → Prop
-    | .mk kp bp rp, .mk kt bt rt =>
-      (∃ sp st, specInfo H (.mk kp bp rp) = some sp ∧ specInfo H (.mk kt bt rt) = some st ∧ sp.hashAt 0 = st.hashAt 0) ∧
-      (kp = 1 ∨ kt = 1 ∨
-        (kp = kt ∧ Spec.dataBytes bp = Spec.dataBytes bt ∧ Spec.d2 bp.length = Spec.d2 bt.length ∧ Agrees0 H rp rt))
-  def Agrees0 (H : Bytes → Bytes) : List Cell → List Cell → Prop
-    | [], ts => ts = []
-    | p :: ps, ts => ∃ t ts', ts = t :: ts' ∧ Agree0 H p t ∧ Agrees0 H ps ts'
-end
-
-theorem popcount_pos (m : Nat) (h : 1 ≤ m) : 1 ≤ Spec.popcount m := by
-  induction m using Nat.strongRecOn with
-  | _ m ih =>
-    cases m with
-    | zero => omega
-    | succ n =>
-      rw [Spec.popcount]
-      by_cases h2 : (n + 1) % 2 = 1
-      · omega
-      · have := ih ((n+1)/2) (by omega) (by omega)
-        omega
-
-/-- level-0 hash of a spec cell, by kind -/
-theorem hash0_pruned (H : Bytes → Bytes) (bits : Bits) (ss : List Spec.SInfo)
-    (hm : 1 ≤ natOfBits ((bits.drop 8).take 8)) :
-    (Spec.node H .pruned bits ss).hashAt 0 = ((Spec.dataBytes bits).take 34).drop 2 := by
-  show Spec.prunedHashAt H bits (Spec.nodeMask .pruned bits ss) 0 = _
-  have := popcount_pos _ hm
-  simp only [Spec.prunedHashAt, Spec.nodeMask, Nat.pow_zero, Nat.mod_one]
-  have e : Spec.popcount 0 = 0 := by simp [Spec.popcount]
-  rw [e, if_neg (by omega)]
-
-theorem hash0_plain (H : Bytes → Bytes) (k : Spec.Kind) (bits : Bits) (ss : List Spec.SInfo) (hk : k ≠ .pruned) :
-    (Spec.node H k bits ss).hashAt 0 = H (repr0 k bits ss) := by
-  rw [node_plain H k bits ss hk]; rfl
-
 theorem flatten_inj (w : Nat) : ∀ (xs ys : List Bytes), xs.length = ys.length →
     (∀ x ∈ xs, x.length = w) → (∀ y ∈ ys, y.length = w) → xs.flatten = ys.flatten → xs = ys := by
   intro xs
@@ -250,85 +183,6 @@ theorem flatten_inj (w : Nat) : ∀ (xs ys : List Bytes), xs.length = ys.length 
       have h1 : x.length = y.length := by rw [hx x (by simp), hy y (by simp)]
       obtain ⟨e1, e2⟩ := List.append_inj he h1
       rw [e1, ih ys (by simpa using hl) (fun a ha => hx a (by simp [ha])) (fun a ha => hy a (by simp [ha])) e2]
-
-theorem hash0_len (H : Bytes → Bytes) (h32 : ∀ x, (H x).length = 32) (kind : Int) (bits : Bits) (refs : List Cell)
-    (s : Spec.SInfo) (mf : MFree (.mk kind bits refs)) (hs : specInfo H (.mk kind bits refs) = some s) :
-    (s.hashAt 0).length = 32 := by
-  rw [MFree] at mf
-  simp only [specInfo, Option.bind_eq_bind] at hs
-  cases hk : kindOf kind with
-  | none => rw [hk] at hs; cases hs
-  | some k =>
-    cases hss : specInfos H refs with
-    | none => rw [hk, hss] at hs; cases hs
-    | some ss =>
-      rw [hk, hss] at hs
-      simp only [Option.bind_some, Option.pure_def, Option.some.injEq] at hs
-      subst hs
-      by_cases hp : k = .pruned
-      · subst hp
-        have hk1 : kind = 1 := (kindCode_of_kindOf hk).symm
-        obtain ⟨_, hb, hm⟩ := mf.2.2.1 hk1
-        rw [hash0_pruned H bits ss hm]
-        have := length_dataBytes bits
-        simp only [List.length_drop, List.length_take]
-        omega
-      · rw [hash0_plain H k bits ss hp]; exact h32 _
-
-theorem hashes0_len (H : Bytes → Bytes) (h32 : ∀ x, (H x).length = 32) : ∀ (cs : List Cell) (ss : List Spec.SInfo),
-    MFrees cs → specInfos H cs = some ss → ∀ x ∈ ss.map (fun c => c.hashAt 0), x.length = 32 := by
-  intro cs
-  induction cs with
-  | nil => intro ss _ hs; simp only [specInfos, Option.some.injEq] at hs; subst hs; simp
-  | cons c cs ih =>
-    intro ss mf hs
-    rw [MFrees] at mf
-    simp only [specInfos, Option.bind_eq_bind] at hs
-    cases hc : specInfo H c with
-    | none => rw [hc] at hs; cases hs
-    | some s =>
-      cases hcs : specInfos H cs with
-      | none => rw [hc, hcs] at hs; cases hs
-      | some ss0 =>
-        rw [hc, hcs] at hs
-        simp only [Option.bind_some, Option.pure_def, Option.some.injEq] at hs
-        subst hs
-        intro x hx
-        simp only [List.map_cons, List.mem_cons] at hx
-        rcases hx with rfl | hx
-        · cases c with
-          | mk kind bits refs => exact hash0_len H h32 kind bits refs s mf.1 hc
-        · exact ih ss0 mf.2 hcs x hx
-
-/-- one node: equal level-0 representations of two non-pruned, non-Merkle cells -/
-theorem node_binding (kP kT : Spec.Kind) (bP bT : Bits) (ssP ssT : List Spec.SInfo)
-    (hP : kP = .ordinary ∨ kP = .library) (hT : kT = .ordinary ∨ kT = .library)
-    (lP : ssP.length ≤ 4) (lT : ssT.length ≤ 4)
-    (h32P : ∀ x ∈ ssP.map (fun c => c.hashAt 0), x.length = 32) (h32T : ∀ x ∈ ssT.map (fun c => c.hashAt 0), x.length = 32)
-    (he : repr0 kP bP ssP = repr0 kT bT ssT) :
-    kP = kT ∧ Spec.dataBytes bP = Spec.dataBytes bT ∧ Spec.d2 bP.length = Spec.d2 bT.length ∧
-      ssP.map (fun c => c.hashAt 0) = ssT.map (fun c => c.hashAt 0) := by
-  have muP : kP.mu = 0 := by rcases hP with rfl | rfl <;> rfl
-  have muT : kT.mu = 0 := by rcases hT with rfl | rfl <;> rfl
-  simp only [repr0, muP, muT, List.cons_append, List.nil_append, List.cons.injEq] at he
-  obtain ⟨hd1, hd2, hrest⟩ := he
-  have hlen : ssP.length = ssT.length ∧ kP = kT := by
-    unfold Spec.d1 at hd1
-    rcases hP with rfl | rfl <;> rcases hT with rfl | rfl <;> simp [Spec.Kind.isExotic] at hd1 <;>
-      first | exact ⟨by omega, rfl⟩ | omega
-  have hdl : (Spec.dataBytes bP).length = (Spec.dataBytes bT).length := by
-    rw [length_dataBytes, length_dataBytes]
-    unfold Spec.d2 at hd2
-    omega
-  obtain ⟨e1, e2⟩ := List.append_inj hrest hdl
-  refine ⟨hlen.2, e1, hd2, ?_⟩
-  simp only [Spec.childPart] at e2
-  have hdep : ((ssP.map (fun c => Spec.be2 (c.depthAt 0))).flatten).length = ((ssT.map (fun c => Spec.be2 (c.depthAt 0))).flatten).length := by
-    rw [length_flatten_const 2 _ (by intro x hx; simp only [List.mem_map] at hx; obtain ⟨c, _, rfl⟩ := hx; simp [Spec.be2]),
-        length_flatten_const 2 _ (by intro x hx; simp only [List.mem_map] at hx; obtain ⟨c, _, rfl⟩ := hx; simp [Spec.be2])]
-    simp [hlen.1]
-  obtain ⟨_, e4⟩ := List.append_inj e2 hdep
-  exact flatten_inj 32 _ _ (by simp [hlen.1]) h32P h32T e4
 
 theorem specInfos_length (H : Bytes → Bytes) : ∀ (cs : List Cell) (ss : List Spec.SInfo), specInfos H cs = some ss → ss.length = cs.length := by
   intro cs
@@ -347,126 +201,6 @@ theorem specInfos_length (H : Bytes → Bytes) : ∀ (cs : List Cell) (ss : List
         simp only [Option.bind_some, Option.pure_def, Option.some.injEq] at h
         subst h
         simp [ih ss0 h2]
-
-theorem reprs0_root (H : Bytes → Bytes) (kind : Int) (bits : Bits) (refs : List Cell) (k : Spec.Kind) (ss : List Spec.SInfo)
-    (hk : kindOf kind = some k) (hss : specInfos H refs = some ss) (hp : k ≠ .pruned) :
-    repr0 k bits ss ∈ reprs0 H (.mk kind bits refs) := by
-  rw [reprs0]; simp [hk, hss, hp]
-
-theorem reprs0_kids (H : Bytes → Bytes) (kind : Int) (bits : Bits) (refs : List Cell) (x : Bytes)
-    (hx : x ∈ reprs0s H refs) : x ∈ reprs0 H (.mk kind bits refs) := by
-  rw [reprs0]; exact List.mem_append_right _ hx
-
-mutual
-  theorem binding0_aux (H : Bytes → Bytes) (h32 : ∀ x, (H x).length = 32) :
-      ∀ (p t : Cell) (sp st : Spec.SInfo), MFree p → MFree t → specInfo H p = some sp → specInfo H t = some st →
-        (∀ x y, x ∈ reprs0 H p → y ∈ reprs0 H t → H x = H y → x = y) → sp.hashAt 0 = st.hashAt 0 → Agree0 H p t
-    | .mk kp bp rp, .mk kt bt rt, sp, st, mp, mt, hsp, hst, inj, hh => by
-      rw [Agree0]
-      refine ⟨⟨sp, st, hsp, hst, hh⟩, ?_⟩
-      by_cases h1 : kp = 1
-      · exact Or.inl h1
-      by_cases h2 : kt = 1
-      · exact Or.inr (Or.inl h2)
-      refine Or.inr (Or.inr ?_)
-      have mp' := mp; have mt' := mt
-      rw [MFree] at mp' mt'
-      simp only [specInfo, Option.bind_eq_bind] at hsp hst
-      cases hkp : kindOf kp with
-      | none => rw [hkp] at hsp; cases hsp
-      | some kP =>
-      cases hkt : kindOf kt with
-      | none => rw [hkt] at hst; cases hst
-      | some kT =>
-      cases hssp : specInfos H rp with
-      | none => rw [hkp, hssp] at hsp; cases hsp
-      | some ssP =>
-      cases hsst : specInfos H rt with
-      | none => rw [hkt, hsst] at hst; cases hst
-      | some ssT =>
-      rw [hkp, hssp] at hsp; rw [hkt, hsst] at hst
-      simp only [Option.bind_some, Option.pure_def, Option.some.injEq] at hsp hst
-      subst hsp; subst hst
-      have hP : kP = .ordinary ∨ kP = .library := by
-        rcases mp'.1 with e | e | e
-        · subst e; left; simpa [kindOf] using hkp.symm
-        · exact absurd e h1
-        · subst e; right; simpa [kindOf] using hkp.symm
-      have hT : kT = .ordinary ∨ kT = .library := by
-        rcases mt'.1 with e | e | e
-        · subst e; left; simpa [kindOf] using hkt.symm
-        · exact absurd e h2
-        · subst e; right; simpa [kindOf] using hkt.symm
-      have npP : kP ≠ .pruned := by rcases hP with rfl | rfl <;> decide
-      have npT : kT ≠ .pruned := by rcases hT with rfl | rfl <;> decide
-      rw [hash0_plain H kP bp ssP npP, hash0_plain H kT bt ssT npT] at hh
-      have hrepr := inj _ _ (reprs0_root H kp bp rp kP ssP hkp hssp npP) (reprs0_root H kt bt rt kT ssT hkt hsst npT) hh
-      have lP : ssP.length ≤ 4 := by
-        have := specInfos_length H rp ssP hssp; omega
-      have lT : ssT.length ≤ 4 := by
-        have := specInfos_length H rt ssT hsst; omega
-      obtain ⟨ek, ed, e2, ehs⟩ := node_binding kP kT bp bt ssP ssT hP hT lP lT
-        (hashes0_len H h32 rp ssP mp'.2.2.2 hssp) (hashes0_len H h32 rt ssT mt'.2.2.2 hsst) hrepr
-      refine ⟨?_, ed, e2, ?_⟩
-      · rw [← kindCode_of_kindOf hkp, ← kindCode_of_kindOf hkt, ek]
-      · exact bindings0_aux H h32 rp rt ssP ssT mp'.2.2.2 mt'.2.2.2 hssp hsst
-          (fun x y hx hy => inj x y (reprs0_kids H kp bp rp x hx) (reprs0_kids H kt bt rt y hy)) ehs
-  theorem bindings0_aux (H : Bytes → Bytes) (h32 : ∀ x, (H x).length = 32) :
-      ∀ (ps ts : List Cell) (sps sts : List Spec.SInfo), MFrees ps → MFrees ts →
-        specInfos H ps = some sps → specInfos H ts = some sts →
-        (∀ x y, x ∈ reprs0s H ps → y ∈ reprs0s H ts → H x = H y → x = y) →
-        sps.map (fun c => c.hashAt 0) = sts.map (fun c => c.hashAt 0) → Agrees0 H ps ts
-    | [], ts, sps, sts, _, _, hsp, hst, _, hh => by
-      rw [Agrees0]
-      simp only [specInfos, Option.some.injEq] at hsp
-      subst hsp
-      cases ts with
-      | nil => rfl
-      | cons t ts =>
-        simp only [specInfos, Option.bind_eq_bind] at hst
-        cases h1 : specInfo H t with
-        | none => rw [h1] at hst; cases hst
-        | some s =>
-          cases h2 : specInfos H ts with
-          | none => rw [h1, h2] at hst; cases hst
-          | some ss => rw [h1, h2] at hst; simp at hst; subst hst; simp at hh
-    | p :: ps, ts, sps, sts, mp, mt, hsp, hst, inj, hh => by
-      rw [Agrees0]
-      rw [MFrees] at mp
-      simp only [specInfos, Option.bind_eq_bind] at hsp
-      cases hp1 : specInfo H p with
-      | none => rw [hp1] at hsp; cases hsp
-      | some sp =>
-      cases hp2 : specInfos H ps with
-      | none => rw [hp1, hp2] at hsp; cases hsp
-      | some sps0 =>
-      rw [hp1, hp2] at hsp
-      simp only [Option.bind_some, Option.pure_def, Option.some.injEq] at hsp
-      subst hsp
-      cases ts with
-      | nil =>
-        simp only [specInfos, Option.some.injEq] at hst
-        subst hst
-        simp at hh
-      | cons t ts =>
-        rw [MFrees] at mt
-        simp only [specInfos, Option.bind_eq_bind] at hst
-        cases ht1 : specInfo H t with
-        | none => rw [ht1] at hst; cases hst
-        | some st =>
-        cases ht2 : specInfos H ts with
-        | none => rw [ht1, ht2] at hst; cases hst
-        | some sts0 =>
-        rw [ht1, ht2] at hst
-        simp only [Option.bind_some, Option.pure_def, Option.some.injEq] at hst
-        subst hst
-        simp only [List.map_cons, List.cons.injEq] at hh
-        refine ⟨t, ts, rfl, ?_, ?_⟩
-        · exact binding0_aux H h32 p t sp st mp.1 mt.1 hp1 ht1
-            (fun x y hx hy => inj x y (by rw [reprs0s]; exact List.mem_append_left _ hx) (by rw [reprs0s]; exact List.mem_append_left _ hy)) hh.1
-        · exact bindings0_aux H h32 ps ts sps0 sts0 mp.2 mt.2 hp2 ht2
-            (fun x y hx hy => inj x y (by rw [reprs0s]; exact List.mem_append_right _ hx) (by rw [reprs0s]; exact List.mem_append_right _ hy)) hh.2
-end
 
 
 end TonVerif.Proofs.Merkle
